@@ -371,7 +371,7 @@ pub open spec fn launched_one(t0: Trace, t1: Trace, j: JoinHandle<()>, h: Target
         /*[C04.nonblocking,C10.signal]*/ r matches Ok((j, h)) ==> !h.target_actor_input_sender.bounded(),
         /*[C08.no-inval-oneshot]*/ r matches Ok((j, h)) ==> (watch_option is Disabled ==> h._watcher is None && final(tr).watchers == old(tr).watchers),
         /*[C06.watch-inputs]*/ r matches Ok((j, h)) ==> (watch_option is Enabled ==> (h._watcher is Some <==> !(target is Aggregate))),
-        /*[C06.watch-inputs]*/ r matches Ok((j, h)) ==> (h._watcher is Some ==> final(tr).watchers.len() > 0 && final(tr).watchers.last() == (target.meta().id, final(tr).launched.last().inval) && h._target_invalidated_sender.chan() == final(tr).launched.last().inval),
+        /*[C06.watch-inputs,C16.wiring]*/ r matches Ok((j, h)) ==> (h._watcher is Some ==> final(tr).watchers.len() > 0 && final(tr).watchers.last() == (target.meta().id, final(tr).launched.last().inval) && h._target_invalidated_sender.chan() == final(tr).launched.last().inval),
         /*[C08.launch-once]*/ r is Err ==> *final(tr) == (Trace { chans: final(tr).chans, watchers: final(tr).watchers, ..*old(tr) }) && old(tr).chans.subset_of(final(tr).chans),
         /*[C08.no-inval-oneshot]*/ r is Err && watch_option is Disabled ==> final(tr).watchers == old(tr).watchers,
 //@end
